@@ -1,12 +1,81 @@
 package main
 
-import "fmt"
+import (
+	"fmt"
+	"os"
+	"path/filepath"
+	"regexp"
+	"strings"
+)
 
 func cmdSelftest(args []string) int {
 	fmt.Println("selftest: TODO")
 	return 0
 }
 
+var vkFuncRe = regexp.MustCompile(`(?m)^func (vk_[A-Za-z0-9_]+)\(`)
+
+// nativeSyscallRewrites returns overlay copies of the package's own source
+// files in which calls to syscall.X / (*os.File).M are redirected to the
+// harness's kernel model vk_X / vk_File_M, mirroring what the engine does by
+// interception. Only used for native replay builds.
 func nativeSyscallRewrites(spec *checkSpec, overlay map[string][]byte) map[string][]byte {
-	return nil
+	names := map[string]bool{}
+	harness := map[string]bool{}
+	dirs := map[string]bool{filepath.Join(repoDir, spec.Dir): true}
+	for virt, content := range overlay {
+		if strings.Contains(filepath.Base(virt), "zz_verif_") {
+			harness[virt] = true
+			for _, m := range vkFuncRe.FindAllSubmatch(content, -1) {
+				names[string(m[1])] = true
+			}
+		}
+	}
+	if len(names) == 0 {
+		return nil
+	}
+	out := map[string][]byte{}
+	for dir := range dirs {
+		ents, _ := os.ReadDir(dir)
+		for _, e := range ents {
+			if !strings.HasSuffix(e.Name(), ".go") || strings.HasSuffix(e.Name(), "_test.go") {
+				continue
+			}
+			path := filepath.Join(dir, e.Name())
+			if harness[path] {
+				continue
+			}
+			src, ok := overlay[path]
+			if !ok {
+				var err error
+				src, err = os.ReadFile(path)
+				if err != nil {
+					continue
+				}
+			}
+			txt := string(src)
+			orig := txt
+			for n := range names {
+				if strings.HasPrefix(n, "vk_File_") {
+					m := strings.TrimPrefix(n, "vk_File_")
+					txt = strings.ReplaceAll(txt, "f."+m+"()", n+"(f)")
+					txt = strings.ReplaceAll(txt, "f."+m+"(", n+"(f, ")
+				} else if strings.HasPrefix(n, "vk_os_") {
+					continue
+				} else {
+					x := strings.TrimPrefix(n, "vk_")
+					txt = regexp.MustCompile(`\bsyscall\.`+x+`\(`).ReplaceAllString(txt, n+"(")
+				}
+			}
+			if txt != orig {
+				// keep imports used
+				txt += "\n\nvar _ = syscall.EAGAIN\n"
+				if !strings.Contains(txt, "\"syscall\"") {
+					continue
+				}
+				out[path] = []byte(txt)
+			}
+		}
+	}
+	return out
 }
